@@ -132,8 +132,12 @@ func segText(s types.Segments) string {
 func roundtrip(site string, v any, fresh any) (string, *rp.Fail) {
 	var js []byte
 	var err error
+	shape := fmt.Sprintf("%#v", v) // (maps are printed in key order)
 	if p := try(func() { js, err = json.Marshal(v) }); p != nil {
 		return "", rp.Failf(site+".MarshalJSON/panic", "marshalling %#v panicked: %v", v, p)
+	}
+	if after := fmt.Sprintf("%#v", v); after != shape {
+		return "", rp.Failf(site+".MarshalJSON/modifies-the-value", "marshalling changed the value (its maps are the caller's):\n  before %s\n  after  %s", shape, after)
 	}
 	if err != nil {
 		return "", rp.Failf(site+".MarshalJSON/error", "marshalling an in-domain value failed: %v", err)
